@@ -160,9 +160,9 @@ impl World for W2 {
             Prop {
                 id: "C22",
                 batches: vec![
-                    Batch { name: "crash", quick: 2_500, thorough: 60_000, faulty: true },
-                    Batch { name: "sweep", quick: 80, thorough: 3_000, faulty: true },
-                    Batch { name: "faultfree", quick: 500, thorough: 10_000, faulty: false },
+                    Batch { name: "crash", quick: 7_000, thorough: 60_000, faulty: true },
+                    Batch { name: "sweep", quick: 200, thorough: 3_000, faulty: true },
+                    Batch { name: "faultfree", quick: 1_500, thorough: 10_000, faulty: false },
                 ],
                 rule: "one run = one history of up to 8 management operations (create/delete tenant, deploy/delete/reload pipeline) over 2 tenants x 3 pipeline slots through the real HTTP handlers on a FileStore-backed TenantManager, with 1-3 crashes at tape-chosen H2 fault points (sweep batch: every fault point of the history); after each crash a new TenantManager recovers from the directory and is compared with the model of acknowledged state (the single in-flight operation may be absent or present). Non-trivial = a crash fired inside an operation that writes AND >= 3 operations were acknowledged; distinct = distinct decoded-trace hash.",
                 real: real22.clone(),
